@@ -89,6 +89,38 @@ fn append_commit(st: &Statement, v: S, r: S) -> Statement {
     s
 }
 
+/// Everything the transcript binds besides the proof itself, in order.
+fn bound_context<G: AffineRepr>(st: &Statement, commitments: &[G]) -> Vec<String> {
+    let mut v = vec![format!("label:{}", st.tlabel), format!("bases:{:?}", st.bases)];
+    for (l, d) in &st.pre {
+        v.push(format!("pre:{}:{}", l, hex(d)));
+    }
+    let mut ci = 0;
+    let mut blocks = 0;
+    for op in &st.ops {
+        match op {
+            Op::Commit { .. } => {
+                v.push(format!("V:{}", commitments.get(ci).map(|c| hex(&crate::codec::enc_point(c))).unwrap_or_default()));
+                ci += 1;
+            }
+            Op::UserData { label, data } => v.push(format!("data1:{}:{}", label, hex(data))),
+            Op::Randomized(b) => {
+                blocks += 1;
+                for o in b {
+                    match o {
+                        Op::UserData { label, data } => v.push(format!("data2:{}:{}", label, hex(data))),
+                        Op::Challenge { label } => v.push(format!("chal:{}", label)),
+                        _ => {}
+                    }
+                }
+            }
+            _ => {}
+        }
+    }
+    v.push(format!("two-phase:{}", blocks > 0));
+    v
+}
+
 fn data_ops(st: &Statement) -> Vec<(usize, Option<usize>)> {
     let mut v = vec![];
     for (i, op) in st.ops.iter().enumerate() {
@@ -440,8 +472,16 @@ pub fn run_case<G: AffineRepr>(run: u64, case: &Case, st: &mut Stats) {
             st.probe("no-proof(skipped)");
             return;
         };
-        if other.st == pc.st && opr.commitments == pr.commitments {
+        // C05 demands rejection when the BOUND CONTEXT differs (label,
+        // application data, commitments, bases, phase structure) or the
+        // committed values do not satisfy the other statement.  Two sessions
+        // with the same bound context whose constraint lists differ only by
+        // rows that contribute nothing (e.g. `1 - 1 = 0`) have the same
+        // verification equation; there is no demand then (the delivery is
+        // still held to the reference relations below).
+        if bound_context(&other.st, &opr.commitments) == bound_context(&pc.st, &pr.commitments) {
             must_reject = false;
+            st.probe("misdelivery-same-bound-context(no-demand)");
         }
         (other.st.clone(), opr.commitments.clone(), pr.bytes.clone())
     } else {
